@@ -91,6 +91,7 @@ def handle (_zs : Zones) (ws : List String) : Option String :=
       -- Interval.__neg__/__abs__ build Intervals; only the delegating operators are modelled
       if op == "neg" || op == "abs" then Option.none else leftOp op (asDuration n) r
     | l, .dur d => rightOp op l d
+    | l, .itv n => rightOp op l (asDuration n)   -- Interval.__radd__/__rmul__ delegate through `as_duration()` too
     | _, _ => Option.none
   | "durcmp" :: rest => do
     let (l, rest) ← parseOpnd rest
